@@ -386,6 +386,16 @@ def handle (j : J) : J :=
         J.obj (base ++ [("opts", J.obj [("json", jvToJ jo), ("rt", resToJ (fromJson env ap jo))])])
       | _, _ => J.obj base
     | _, _, _ => bad "codec"
+  | some "codec_many" =>
+    match (j.get? "env").bind envOfJ, j.getArr? "items" with
+    | some env, some items =>
+      .obj [("outs", .arr (items.map fun it =>
+        match (it.get? "value").bind treeOfJ, it.getBool? "hide_frozen", it.getBool? "hide_default_values" with
+        | some t, some hf, some hd =>
+          let jo := toJsonO ⟨hf, hd⟩ env t
+          J.obj [("json", jvToJ jo), ("rt", resToJ (fromJson env true jo))]
+        | _, _, _ => bad "codec_many item"))]
+    | _, _ => bad "codec_many"
   | some "codec_opts" =>
     match (j.get? "env").bind envOfJ, (j.get? "value").bind treeOfJ, j.getBool? "ap",
           j.getBool? "hide_frozen", j.getBool? "hide_default_values" with
